@@ -2,7 +2,7 @@
 Python value, canonical text of a real value, line-protocol tokens.  Not a property module.
 
 Case types are the trees of harness/props/c31.py (`['array', T]`, `['struct', [[name, T], …]]`, …).  Case values:
-    None                                   missing
+    None | ['pdna']                        missing (spelled None / pandas.NA — HailType._missing accepts both; C33 only)
     int / bool / str                       int32, int64 / bool / str
     ['f', bits]                            float (bits = IEEE-754 binary64 pattern of the Python float; NaN is canonicalised)
     ['call', [alleles], phased]
@@ -244,6 +244,36 @@ def canon_case(t, v):
     raise ValueError(k)
 
 
+PDNA = ['pdna']
+
+
+def unspell(v):
+    """the case value with every missing value spelled None"""
+    if v == PDNA:
+        return None
+    if isinstance(v, list):
+        return [unspell(x) for x in v]
+    return v
+
+
+def spell_missing(rng, t, v, p=0.4, top=True):
+    """the case value with some nested missing values spelled pandas.NA (never the top-level value)"""
+    if v is None:
+        return list(PDNA) if (not top and rng.random() < p) else None
+    k = t[0]
+    if k == 'interval':
+        return ['iv', spell_missing(rng, t[1], v[1], p, False), spell_missing(rng, t[1], v[2], p, False), v[3], v[4]]
+    if k in ('array', 'set'):
+        return [v[0], [spell_missing(rng, t[1], x, p, False) for x in v[1]]]
+    if k == 'dict':
+        return ['dict', [[spell_missing(rng, t[1], a, p, False), spell_missing(rng, t[2], b, p, False)] for a, b in v[1]]]
+    if k == 'struct':
+        return ['st', [spell_missing(rng, ft, x, p, False) for (_, ft), x in zip(t[1], v[1])]] + v[2:]
+    if k == 'tuple':
+        return ['tup', [spell_missing(rng, et, x, p, False) for et, x in zip(t[1], v[1])]]
+    return v
+
+
 class HailValues:
     """needs hailenv.init() first"""
 
@@ -258,6 +288,8 @@ class HailValues:
         from hailtop.frozendict import frozendict
         from hailtop.hail_frozenlist import frozenlist
         self.frozendict, self.frozenlist = frozendict, frozenlist
+        import hail.expr.types as _T
+        self.pdNA = _T.pd.NA          # the very object HailType._missing compares against
 
     def build_type(self, t):
         hl = self.hl
@@ -291,6 +323,8 @@ class HailValues:
         """the real Python value (frozen containers inside sets / dict keys, as Python requires)"""
         if v is None:
             return None
+        if v == PDNA:
+            return self.pdNA
         k = t[0]
         if k in ('i32', 'i64', 'bool', 'str'):
             return v
@@ -338,7 +372,7 @@ class HailValues:
     def canon_py(self, t, x):
         """canonical text of a real Python value of type t (same format as canon_case); raises on a value of the wrong shape"""
         np = self.np
-        if x is None:
+        if x is None or x is self.pdNA:
             return 'NA'
         k = t[0]
         if k in ('i32', 'i64'):
